@@ -7,6 +7,7 @@ def parseRCOp (line : String) : Option RCOp :=
   | ["inc", d] => d.toInt?.map .inc
   | ["sum", d] => d.toInt?.map .sum
   | ["bk", d] => d.toInt?.map .bk
+  | ["str", d] => d.toInt?.map .bk      -- StringAt(now): the same window movement as GetBuckets(now); see `isStr`
   | ["reset", d] => d.toInt?.map .reset
   | ["total"] => some .total
   | ["json"] => some .json
@@ -29,6 +30,10 @@ def suiteRC (kvs : List (String × String)) (lines0 : List (String × String)) :
     let m := (RC.new n w).run ops
     let s := SpecC13.run n w ops
     -- the property speaks about positive bucket counts and widths only: no spec opinion outside
-    (m.zip s).map fun (a, b) => a.fmt ++ "\t" ++ (if n = 0 ∨ w ≤ 0 then "-" else b.fmt)
+    -- `str d`: the harness itself compares StringAt's text with the three getters; here only "did it panic"
+    let isStr := lines.map fun l => l.startsWith "str "
+    let strFmt (o : RCOut) : String := match o with | .panic => "panic" | _ => "ok"
+    ((m.zip s).zip isStr).map fun ((a, b), st) =>
+      (if st then strFmt a else a.fmt) ++ "\t" ++ (if n = 0 ∨ w ≤ 0 then "-" else (if st then strFmt b else b.fmt))
 
 end CM
